@@ -290,6 +290,7 @@ type blockCase struct {
 	DenseN   int `json:"dense_n,omitempty"`
 	DensePay int `json:"dense_pay,omitempty"`
 	// size regime: one more item is appended so that the running total lands TailDelta bytes from the bound
+	Tune      bool `json:"tune,omitempty"`
 	TailDelta int  `json:"tail_delta,omitempty"`
 	TailGroup bool `json:"tail_group,omitempty"`
 }
@@ -372,20 +373,26 @@ func genBlocked(t *rapid.T) []who {
 	return out
 }
 
-// txSizeFor returns a payload length giving a "none" transaction of exactly the wanted encoded size (or -1).
-func payloadForSize(cfg *types.Chain33Config, from who, nonce int64, want int) int {
-	probe := txSpec{From: from, Pay: 1000, Nonce: nonce}
-	base := probe.build(cfg, false).Size() - 1000 // framing around a 1000-byte payload
-	for _, guess := range []int{want - base, want - base - 1, want - base + 1, want - base - 2, want - base + 2} {
-		if guess < 1 || guess > types.MaxTxSize-300 {
-			continue
-		}
-		probe.Pay = guess
-		if probe.build(cfg, false).Size() == want {
-			return guess
+// tuneSize adjusts Pay (and, because the DER signature length varies with the message, Nonce) of a signed "none"
+// transaction spec until its encoded size is exactly want; ok=false if that fails.
+func tuneSize(cfg *types.Chain33Config, spec txSpec, want int) (txSpec, bool) {
+	spec.Pay = 1000
+	base := spec.build(cfg, true).Size() - 1000 // envelope around a 1000-byte payload
+	for n := int64(0); n < 8; n++ {
+		for d := 0; d <= 4; d++ {
+			for _, guess := range []int{want - base - d, want - base + d} {
+				if guess < 1 || guess > types.MaxTxSize-300 {
+					continue
+				}
+				try := spec
+				try.Pay, try.Nonce = guess, spec.Nonce+n*1000
+				if try.build(cfg, true).Size() == want {
+					return try, true
+				}
+			}
 		}
 	}
-	return -1
+	return spec, false
 }
 
 func genBlockCase(t *rapid.T) *blockCase {
@@ -422,20 +429,17 @@ func genBlockCase(t *rapid.T) *blockCase {
 			c.Items = append(c.Items, genItem(t, 0, 2000, 20, c.Blocked, &nonce))
 		}
 	case "size":
-		// big items until about 150 KB below the accumulation bound (singles only for the last 2 MB so that the
-		// list usually ends below the bound); the tail is tuned in runBlockCase
-		room := types.MaxBlockSize - 100000 - 150000
+		// big items until the payloads alone exceed the accumulation bound; with Tune the list is cut and a tail
+		// landing within 3 bytes of the bound is appended in runBlockCase
+		room := types.MaxBlockSize - 100000
 		for sum := 0; sum < room; {
-			mg := 20
-			if sum > room-2000000 && rapid.IntRange(0, 3).Draw(t, "lateGroup") > 0 {
-				mg = 1
-			}
-			it := genItem(t, 60000, 99000, mg, c.Blocked, &nonce)
+			it := genItem(t, 60000, 99000, 20, c.Blocked, &nonce)
 			c.Items = append(c.Items, it)
 			for _, s := range it.Txs {
 				sum += s.Pay
 			}
 		}
+		c.Tune = rapid.IntRange(0, 2).Draw(t, "tune") > 0
 		c.TailDelta = rapid.IntRange(-3, 3).Draw(t, "tailDelta")
 		c.TailGroup = rapid.Bool().Draw(t, "tailGroup")
 	case "dense":
@@ -511,41 +515,66 @@ func runBlockCase(t lib.TB, c *blockCase) {
 		}
 		return b
 	}
-	if c.Regime == "size" {
-		// tune the tail: one more item that lands the running total tailDelta bytes from the bound
-		sum := newBlock().Size()
-		for _, it := range items {
-			if !(active && it.touch) {
-				sum += it.size
+	if c.Regime == "size" && c.Tune {
+		// Boundary seeking: keep the longest prefix whose packable sum stays 120000 below the accumulation bound, pad
+		// with 90 KB singles, then append one item (single, or group of two) that lands the running total exactly
+		// TailDelta bytes from the bound, and a small filler after it.
+		bound := types.MaxBlockSize - 100000
+		sum, keep := newBlock().Size(), 0
+		for i, it := range items {
+			add := it.size
+			if active && it.touch {
+				add = 0
+			}
+			if sum+add > bound-120000 {
+				break
+			}
+			sum, keep = sum+add, i+1
+		}
+		items = items[:keep:keep]
+		nonce := int64(777000)
+		next := func(k, pay int) txSpec { nonce++; return txSpec{From: who{K: k}, Pay: pay, Nonce: nonce} }
+		reach := 95000 // what the tail item can span: one transaction, or two
+		if tailGroup {
+			reach = 190000
+		}
+		for bound+tailDelta-sum > reach {
+			pay := bound + tailDelta - sum - 50000
+			if pay > 90000 {
+				pay = 90000
+			}
+			pad := &item{Txs: []txSpec{next(4, pay)}}
+			pad.build(cfg, bl, true)
+			items, sum = append(items, pad), sum+pad.size
+		}
+		want := bound + tailDelta - sum
+		var tail *item
+		if tailGroup && want > 1200 {
+			a, ok := tuneSize(cfg, next(1, 0), want/2)
+			if b := next(2, a.Pay); ok {
+				tail = &item{Txs: []txSpec{a, b}}
+				tail.build(cfg, bl, true)
+				// members gain Header/Next/GroupCount/fee bytes inside a group: re-tune the second member
+				for k := 0; k < 12 && tail.size != want; k++ {
+					tail.Txs[1].Pay += want - tail.size
+					tail.Txs[1].Nonce += int64(k%2) * 1000 // another signature length
+					if tail.Txs[1].Pay < 1 || tail.Txs[1].Pay > 99000 {
+						break
+					}
+					tail.build(cfg, bl, true)
+				}
+			}
+		} else if want > 300 && want < 99500 {
+			if a, ok := tuneSize(cfg, next(1, 0), want); ok {
+				tail = &item{Txs: []txSpec{a}}
+				tail.build(cfg, bl, true)
 			}
 		}
-		want := types.MaxBlockSize - 100000 + tailDelta - sum
-		if want > 400 && want < 2*90000 {
-			var tail *item
-			if tailGroup && want > 1200 {
-				half := want / 2
-				p1 := payloadForSize(cfg, who{K: 1}, 777001, half)
-				if p1 > 0 {
-					tail = &item{Txs: []txSpec{{From: who{K: 1}, Pay: p1, Nonce: 777001}, {From: who{K: 2}, Pay: p1, Nonce: 777002}}}
-					tail.build(cfg, bl, true)
-					// group members gain Header/Next/GroupCount bytes: re-tune the second member
-					if d := want - tail.size; d != 0 && p1+d > 0 && p1+d < 99000 {
-						tail.Txs[1].Pay = p1 + d
-						tail.build(cfg, bl, true)
-					}
-				}
-			} else if want < 99000 {
-				if p := payloadForSize(cfg, who{K: 1}, 777001, want); p > 0 {
-					tail = &item{Txs: []txSpec{{From: who{K: 1}, Pay: p, Nonce: 777001}}}
-					tail.build(cfg, bl, true)
-				}
-			}
-			if tail != nil {
-				items = append(items, tail)
-				filler := &item{Txs: []txSpec{{From: who{K: 3}, Pay: 5, Nonce: 777003}}}
-				filler.build(cfg, bl, true)
-				items = append(items, filler)
-			}
+		if tail != nil {
+			filler := &item{Txs: []txSpec{next(3, 5)}}
+			filler.build(cfg, bl, true)
+			items = append(items, tail, filler)
+			lib.Class("size_tail_tuned")
 		}
 	}
 
